@@ -13,76 +13,115 @@ import (
 // c02r67: RTP boundary detection needs the fragment's start bit (R6); a GOP ring slot is emptied
 // before it is reused (R7).
 func c02r67(p *model.Prog, r *report.Result) {
-	r.Rule("C02.R6", "in rtprtcp.IsAvcBoundary / IsHevcBoundary every 'return true' that lies behind the fragmentation-unit test (outer type == FU-A 28 / FU 49) also lies behind <FU header byte> & 0x80 != 0 taken from the byte the inner type was read from: only the first fragment of a key NAL is a place a waiting subscriber may start")
+	r.Rule("C02.R6", "rtprtcp.IsAvcBoundary / IsHevcBoundary report no boundary for a fragmentation unit whose start bit is clear: with the outer type fixed to FU-A 28 / FU 49, the inner type to a key NAL type and every '<byte> & 0x80' to 0, every path of the function (all other conditions branching both ways) returns false - only the first fragment of a key NAL is a place a waiting subscriber may start (path enumeration; independent of how the tests are arranged)")
 	for _, c := range []struct {
-		fn, k string
-	}{{"IsAvcBoundary", "NaluTypeAvcFua"}, {"IsHevcBoundary", "NaluTypeHevcFua"}} {
+		fn, k  string
+		mask   int64
+		keyNal int64
+	}{{"IsAvcBoundary", "NaluTypeAvcFua", 0x1F, 5}, {"IsHevcBoundary", "NaluTypeHevcFua", 0x3F, 19}} {
 		fn := p.Func("pkg/rtprtcp", c.fn)
 		fu, _ := constant.Int64Val(p.Const("pkg/rtprtcp", c.k).Val())
-		n := 0
-		for _, ret := range model.ReturnsOf(fn) {
-			rvs := model.ReturnValues(ret)
-			if len(rvs) != 1 {
-				continue
-			}
-			if v, isK := model.ConstBool(rvs[0]); !isK || !v {
-				if !isK {
-					r.Bad("C02.R6", fkey(fn, "boundary", "computed-result"), p.InstrPos(ret), "the boundary verdict is a computed value; the rule only knows constant returns behind guards")
-				}
-				continue
-			}
-			var fuIf *ssa.If
-			for _, g := range model.Guards(ret.Block()) {
-				cnd, pol := model.StripNot(g.Cond, g.Polarity)
-				if _, k, op, _, ok := constCmp(cnd); ok && k == fu && op == token.EQL && pol {
-					fuIf = g.If
-				}
-			}
-			if fuIf == nil {
-				continue
-			}
-			n++
-			// index of the FU header byte: the byte loads in the FU region
-			idxs := map[int64]bool{}
-			region := fuIf.Block().Succs[0]
-			for _, b := range fn.Blocks {
-				if b != region && !region.Dominates(b) {
-					continue
-				}
-				for _, in := range b.Instrs {
-					if ia, ok := in.(*ssa.IndexAddr); ok {
-						if k, isK := model.ConstInt(ia.Index); isK {
-							idxs[k] = true
-						}
-					}
-				}
-			}
-			start := model.GuardedBy(ret, func(cnd ssa.Value, pol bool) bool {
-				x, k, op, right, ok := constCmp(cnd)
-				if !ok || cmpAt(op, 0, k, right) == pol || cmpAt(op, 0x80, k, right) != pol {
-					return false
-				}
-				and, ok := model.Unwrap(x).(*ssa.BinOp)
-				if !ok || and.Op != token.AND {
-					return false
-				}
-				m, isK := model.ConstInt(and.Y)
-				ld, isL := and.X.(*ssa.UnOp)
-				if !isK || m != 0x80 || !isL {
+		usedFu, usedStart := false, false
+		fromIndex0 := func(v ssa.Value) bool {
+			return model.DependsOn(v, func(x ssa.Value) bool {
+				ld, ok := x.(*ssa.UnOp)
+				if !ok || ld.Op != token.MUL {
 					return false
 				}
 				ia, ok := ld.X.(*ssa.IndexAddr)
 				if !ok {
 					return false
 				}
-				_, isC := model.ConstInt(ia.Index)
-				return isC
+				k, isK := model.ConstInt(ia.Index)
+				return isK && k == 0
 			})
-			r.Check(start && len(idxs) == 1, "C02.R6", fkey(fn, "boundary", "fragment-start"), p.InstrPos(ret), "fragment counted as a boundary only with its start bit set", "a middle or last fragment of a key NAL is reported as a boundary: a subscriber admitted between two fragments starts inside a key frame")
 		}
-		if n < 1 {
-			r.Bad("C02.R6", fkey(fn, "boundary", "floor"), p.Pos(fn.Pos()), "no 'return true' behind the fragmentation-unit test found")
+		ev := &cEval{fn: fn, maxVisits: 4, maxPaths: 2048}
+		var seed func(v ssa.Value) (int64, bool)
+		seed = func(v ssa.Value) (int64, bool) {
+			v = model.Unwrap(v)
+			// the type extraction may be the codec package's ParseNaluType(byte)
+			if call, isCall := v.(*ssa.Call); isCall {
+				if o := model.CalleeObj(call.Common()); o != nil && o.Name() == "ParseNaluType" && len(call.Call.Args) == 1 {
+					if fromIndex0(call.Call.Args[0]) {
+						usedFu = true
+						return fu, true
+					}
+					return c.keyNal, true
+				}
+				return 0, false
+			}
+			// membership of a type in a set built in this function from constant keys
+			if ex, isEx := v.(*ssa.Extract); isEx && ex.Index == 1 {
+				if lk, isLk := ex.Tuple.(*ssa.Lookup); isLk && lk.CommaOk {
+					key, known := seed(lk.Index)
+					if !known {
+						return 0, false
+					}
+					keys, complete := constMapKeys(fn, lk.X)
+					if !complete {
+						return 0, false
+					}
+					return b2i(keys[key]), true
+				}
+				return 0, false
+			}
+			bo, ok := v.(*ssa.BinOp)
+			if !ok {
+				return 0, false
+			}
+			switch bo.Op {
+			case token.AND:
+				m, isK := model.ConstInt(bo.Y)
+				if !isK {
+					return 0, false
+				}
+				if m == 0x80 {
+					usedStart = true
+					return 0, true
+				}
+				if m == c.mask {
+					if fromIndex0(bo.X) {
+						usedFu = true
+						return fu, true
+					}
+					return c.keyNal, true // the inner type: a key NAL unit
+				}
+			case token.SHR:
+				if k, isK := model.ConstInt(bo.Y); isK && k == 7 {
+					usedStart = true
+					return 0, true
+				}
+			}
+			return 0, false
 		}
+		ev.seed = seed
+		ev.run()
+		if ev.undecided != "" {
+			r.Bad("C02.R6", fkey(fn, "boundary", "undecided"), p.Pos(fn.Pos()), "the paths of "+c.fn+" could not be enumerated: "+ev.undecided)
+			continue
+		}
+		bad := ""
+		nRet := 0
+		for _, pa := range ev.paths {
+			if pa.ret == nil {
+				continue
+			}
+			nRet++
+			rvs := model.ReturnValues(pa.ret)
+			if len(rvs) != 1 {
+				continue
+			}
+			if v, known := ev.val(pa.env, rvs[0]); !known || v != 0 {
+				bad = p.InstrPos(pa.ret)
+			}
+		}
+		pos := p.Pos(fn.Pos())
+		if bad != "" {
+			pos = bad
+		}
+		r.Check(bad == "" && nRet > 0 && usedFu, "C02.R6", fkey(fn, "boundary", "fragment-start"), pos, "a fragment with the start bit clear is never a boundary", "a middle or last fragment of a key NAL can be reported as a boundary (a path for outer type FU, start bit clear, reaches a return that is not false): a subscriber admitted between two fragments starts inside a key frame")
+		_ = usedStart
 	}
 
 	r.Rule("C02.R7", "in GopCache.feedNewGop / GopCacheMpegts.feedNewGop the ring slot that receives the new GOP's first frame (ring[gopRingLast]) is emptied by Clear() on the same slot first, with no change of gopRingLast in between: frames left in a slot by Clear() of the cache (which only resets the indices) or by an evicted GOP are never replayed under a new sequence header")
@@ -132,4 +171,28 @@ func c02r67(p *model.Prog, r *report.Result) {
 			r.Check(ok, "C02.R7", fkey(fn, "slot", "cleared-before-reuse"), p.InstrPos(f), "slot cleared before the new GOP is written", "the slot that receives the new GOP is not emptied first: after the cache's Clear() (publisher left; only the indices are reset) the previous publisher's frames in that slot are replayed in front of the new key frame, under the new sequence header")
 		}
 	}
+}
+
+// constMapKeys: the constant integer keys stored into a map that is created in fn (make or
+// literal) and only updated there with constant keys; complete = nothing else can add keys.
+func constMapKeys(fn *ssa.Function, m ssa.Value) (map[int64]bool, bool) {
+	mk, ok := m.(*ssa.MakeMap)
+	if !ok || mk.Parent() != fn || mk.Referrers() == nil {
+		return nil, false
+	}
+	keys := map[int64]bool{}
+	for _, ref := range *mk.Referrers() {
+		switch x := ref.(type) {
+		case *ssa.MapUpdate:
+			k, isK := model.ConstInt(x.Key)
+			if !isK {
+				return nil, false
+			}
+			keys[k] = true
+		case *ssa.Lookup, *ssa.DebugRef:
+		default:
+			return nil, false // escapes
+		}
+	}
+	return keys, true
 }
